@@ -210,6 +210,13 @@ func NewWorld(spec *WorldSpec, schedSeed uint64, policy int, faults []Fault) *Wo
 		presented: map[string]bool{}, lostReply: map[int]bool{},
 		start: time.Now(), redisSync: time.Now()}
 	curNet = w.Net
+	w.Net.DialFault = func(addr string) error {
+		if w.faultAt("net.dial") == "refused" {
+			w.countFault("dial-refused")
+			return errors.New("sim: connection refused")
+		}
+		return nil
+	}
 	oidc.VerifResetDiscovery()
 	for _, m := range penv.redis {
 		m.FlushAll()
